@@ -169,3 +169,21 @@ Proof.
   - apply (safe_mono c1 _ _ H1), safe_binding.
   - apply safe_shortstr.
 Qed.
+
+(* ---------- the model's fuel is always enough ---------- *)
+From GMQ Require Import Proofs.CodecFuelProofs.
+
+Lemma gen_decoders_nofuel : forall d bs,
+  decode_value d bs <> Fuel /\ decode_table d bs <> Fuel /\ decode_method_frame d bs <> Fuel /\ decode_header d bs <> Fuel /\
+  decode_frame bs <> Fuel /\ decode_message d bs <> Fuel /\ decode_binding d bs <> Fuel.
+Proof.
+  intros d bs.
+  unfold decode_value, decode_table, decode_method_frame, decode_header, decode_frame, decode_message, decode_binding.
+  split; [exact (value_top_nofuel longstr_alloc rd_gen d bs)|].
+  split; [exact (table_nofuel longstr_alloc rd_gen d bs)|].
+  split; [exact (method_frame_nofuel longstr_alloc rd_gen d all_methods read_dispatch bs)|].
+  split; [exact (header_nofuel longstr_alloc rd_gen d props_fields props_read bs)|].
+  split; [exact (frame_nofuel frame_alloc c_FrameEnd bs)|].
+  split; [exact (message_nofuel longstr_alloc rd_gen frame_alloc c_FrameEnd d props_fields props_read bs)|].
+  exact (binding_nofuel longstr_alloc rd_gen d bs).
+Qed.
